@@ -236,4 +236,12 @@ theorem toStr_eq_ofList (a : Int) : BigDec.toStr a = ofList (toChars Osmomath.Bi
   · rw [if_neg ha, if_neg ha, show ("" : String) = ofList [] from rfl]
     simp only [← String.ofList_append, List.append_assoc, List.cons_append, List.nil_append]
 
+theorem prec_pos : 0 < Osmomath.BigDecPrecision := by decide
+theorem dot_toList : (".": String).toList = ['.'] := rfl
+theorem dash_toList : ("-": String).toList = ['-'] := rfl
+
+theorem fromStr_of_parseU_none {s : String} (h : parseU Osmomath.BigDecPrecision s.toList = none) :
+    BigDec.fromStr s = none := by
+  rw [fromStr_eq_parseU, h]; rfl
+
 end OsmoVerif.NumStr
